@@ -127,8 +127,9 @@ def run_engine(binary, mode, tier, shards=1, env=None, timeout=3600, extra_args=
                 raise Machinery(f"engine {binary} shard {i} died with status {rc} but survived the traced re-run (nondeterministic crash)\n{err[-2000:]}")
             if last is None:
                 raise Machinery(f"engine {binary} shard {i} died with status {rc2} outside any case\nstderr: {err2[-3000:]}")
-            sig = -rc2 if rc2 < 0 else rc2
-            crash = {'desc': last, 'what': f"process died while running this case (status {rc2}{', timeout' if rc2 == -999 else ''}); stderr tail: {err2[-600:].strip()}", 'stable': True, 'crash': True}
+            key = [l.strip() for l in err2.splitlines() if ('ERROR: AddressSanitizer' in l or 'SUMMARY: AddressSanitizer' in l or 'panicked at' in l or 'unsafe precondition' in l or 'has overflowed its stack' in l or 'memory allocation of' in l)]
+            detail = ' | '.join(key[:3]) if key else err2[-400:].strip()
+            crash = {'desc': last, 'what': f"process died while running this case (status {rc2}{', timeout' if rc2 == -999 else ''}): {detail[:700]}", 'stable': True, 'crash': True}
             viols = v2 + [crash]
         elif rc == 2 and not viols:
             raise Machinery(f"engine {binary} shard {i} reported machinery errors: {json.dumps((result or {}).get('machinery_errors'))[:3000]}\n{err[-1500:]}")
